@@ -209,6 +209,16 @@ PROPS = {
         trusted=["modelled, not verified: sync.Mutex, channel close wakes all receivers; the instrumenter announces the lock sites of the CURRENT ecache.go (GetOrCreate#1/#2, Remove#1, Clear#1)", "C09Exec.handle_sound / replay_reach: every accepted trace is an Lru.Conc.Step execution"],
         explanation="C09.single_flight (at most one creator per key; in-flight table exact), size_le_cap, step_simulates (every step is invisible or is the linearization point of one call and acts exactly like the sequential Lru.EC operation — forward simulation; with LinThm this gives linearizability), accounting (created = deleted + resident + unpublished at every state), waiter_enabled",
     ),
+    "C13": dict(
+        lean=["GolibsVerif.Props.C13", "GolibsVerif.Props.C13Exec", "GolibsVerif.Props.C12"],
+        seq=[],
+        go_cmds=("seq", "conc"),
+        conc=[dict(comp="pool", driver="pooltrace", decisive=lambda d: d["op"].startswith("mon C13"))],
+        rule="cases = executions of the REAL package-level dispatcher under a virtual clock and harness-controlled sleep timers (time.Now / time.NewTimer of the CURRENT timeout.go redirected by the instrumenter), pool limits {1,2,3,10}, idle timeouts {5,20,100} ms: scripts of 4..16 actions from {Call with delay 0/1/3/10/50/500 ms (far and near futures, a near one while the dispatcher sleeps towards a far one), a burst of limit+2 futures due at once, Cancel of a random future (incl. the head), advance time by 1/2/5/11/idle+1/60 ms, let an expired sleep timer fire}; then time is advanced past every fire time and expired timers are served fairly until every live future has started, then idle rounds until the pool has wound down to zero watchers; every locked section of the watcher loop (with watchers / heap length / wake tokens seen under the lock), every sleep with its deadline, every callback start and every exit become trace events replayed by the Lean driver through Tmo.Pool.Exec; non-trivial = an arrival preceded the current head, or a burst; distinct by hash of the event list",
+        assumptions=["fair scheduling of runnable goroutines (liveness is proved as 'someone is responsible' + enabledness, not as a temporal formula)", "fire times are pairwise distinct in the trace runs (ties are covered by the C12 heap correspondence)", "callbacks return promptly (a blocked callback occupies its watcher)", "a wake token sent while a watcher is blocked in select is consumed at once (the model allows it to linger: over-approximation)"],
+        trusted=["modelled, not verified: Go select / timer / buffered channel semantics, goroutine spawn; the heap is abstracted to 'head = a pending future with the least fire time' (C12.root_is_min)", "C13Exec.handle_sound / replay_reach: every accepted trace is a Tmo.Pool.Step execution"],
+        explanation="C13 theorems on the pool transition system (see Props/C13.lean: watchers_exact, someone_responsible / no_stuck_state or their stated partial forms, restart, burst_spawns, wind_down, started_were_due)",
+    ),
 }
 
 # ------------------------------------------------------------------------------------------------
@@ -236,6 +246,7 @@ MANIFEST_TEXT = {
 }
 
 MANIFEST_TEXT.update({
+    "C13": _t("Lean proofs on a transition system of the dispatcher's worker pool (watcher loop decisions, wake tokens, spawn/exit, discrete time): the watcher counter is exact, whenever a future is pending some watcher is responsible for it (awake, sleeping no longer than until its fire time, or about to receive a wake token) so a due future can always be served, a Call with no watcher starts one, a due backlog spawns, idle watchers exit; tied to the code by replaying real executions of the dispatcher under a virtual clock with harness-controlled timers through the executable model (proved sound). Lateness bounds and eventual firing rest on fair scheduling (not mechanised)", "Lean 4 invariant/enabledness proofs over a transition system + trace refinement of real executions under a virtual clock"),
     "C09": _t("Lean proofs on the N-caller transition system of ecache.go: single-flight (at most one creation per key in progress, in-flight table exact), size <= capacity, step-wise forward simulation to the sequential LRU model (results, evictions and callbacks of each linearization point equal the sequential operation's), exact accounting of created/deleted/resident/unpublished values; tied to the code by replaying real executions (instrumented critical sections, gated create function, delete callbacks) through the executable model, proved sound w.r.t. the step relation", "Lean 4 invariant + forward-simulation proofs over an N-process transition system + trace refinement of real executions"),
     "C07": _t("Lean proofs on a small-step model of inmem's WaitForVersionChange + mutators (any number of waiters, keys, writers): verdict soundness, no lost wake-up (a waiter parked on an open channel implies the record still has the awaited version and the channel is the key's current waiter record), exact waiter counts, empty table when nobody waits, isolation of a cancelling waiter; tied to the code by replaying the real critical sections (instrumented lock + goroutine attribution + table snapshots) through the executable model, proved sound w.r.t. the step relation", "Lean 4 inductive-invariant proofs over a small-step model + trace refinement of real critical sections"),
     "C02": _t("Lean: generic theorem that an object whose operations each take effect in one atomic step is linearizable in step order (real-time respecting, sequentially legal), contract theorems for all histories (fresh versions, at most one CAS winner per version, one winning creator, losers change nothing); in-memory backend: regenerated skeleton fact (each method = one lock region) + instrumented critical-section order replayed by the Lean driver; Redis: every explored concurrent history gets a linearization witness that the Lean driver validates against the contract, incl. forced WATCH/EXEC races. Unbounded for the in-memory backend; per-history certification for the Redis multi-command operations", "Lean 4 linearizability theorem for atomic-step objects + contract proofs + Lean-validated linearization witnesses of real concurrent histories"),
@@ -246,5 +257,4 @@ MANIFEST_TEXT.update({
 })
 
 NOT_CLAIMED = {
-    "C13": "in progress (worker-pool model + tie not built yet)",
 }
